@@ -331,8 +331,52 @@ func init() {
 	regNoop("fmt.Println", "fmt.Printf", "fmt.Print", "fmt.Fprintf", "fmt.Fprintln", "fmt.Fprint")
 
 	// ---- sync
-	regNoop("(*sync.Mutex).Lock", "(*sync.Mutex).Unlock", "(*sync.RWMutex).Lock", "(*sync.RWMutex).Unlock",
-		"(*sync.RWMutex).RLock", "(*sync.RWMutex).RUnlock", "runtime.SetFinalizer", "runtime.KeepAlive",
+	// Mutexes: no-ops by default (a goroutine runs until it blocks, so code
+	// between scheduling points is atomic anyway). With verif.LockModel(true) a
+	// mutex is a one-slot channel: Lock blocks while it is held and every lock
+	// operation is a scheduling point (with verif.Preempt), so interleavings
+	// between critical sections are explored. Read locks are taken exclusively
+	// (readers do not overlap each other; they still interleave with everything else).
+	lockOp := func(acquire bool) intrinsic {
+		return func(p *Path, _ *frame, a []Value) Value {
+			if !p.lockModel {
+				return nil
+			}
+			cell, ok := a[0].(*Value)
+			if !ok || cell == nil {
+				p.goPanicRuntime("invalid memory address or nil pointer dereference (nil mutex)")
+			}
+			if p.mutexes == nil {
+				p.mutexes = map[*Value]*Chan{}
+			}
+			ch := p.mutexes[cell]
+			if ch == nil {
+				ch = p.makeChanOf(types.NewStruct(nil, nil))
+				ch.cap = 1
+				ch.name = "mutex"
+				p.mutexes[cell] = ch
+			}
+			if acquire {
+				p.doCases([]waitCase{{ch: ch, send: true, val: Struct{}}}, true)
+				return nil
+			}
+			if i, _, _ := p.doCases([]waitCase{{ch: ch}}, false); i < 0 {
+				p.goPanicRuntime("sync: unlock of unlocked mutex")
+			}
+			return nil
+		}
+	}
+	for _, n := range []string{"(*sync.Mutex).Lock", "(*sync.RWMutex).Lock", "(*sync.RWMutex).RLock"} {
+		reg(n, lockOp(true))
+	}
+	for _, n := range []string{"(*sync.Mutex).Unlock", "(*sync.RWMutex).Unlock", "(*sync.RWMutex).RUnlock"} {
+		reg(n, lockOp(false))
+	}
+	reg(verifPkg+".LockModel", func(p *Path, _ *frame, a []Value) Value {
+		p.lockModel = p.branch(p.boolArg(a[0]))
+		return nil
+	})
+	regNoop("runtime.SetFinalizer", "runtime.KeepAlive",
 		"runtime.Gosched", "(*sync.WaitGroup).Add", "(*sync.WaitGroup).Done", "(*sync.WaitGroup).Wait")
 	reg("(*sync.Mutex).TryLock", func(p *Path, _ *frame, a []Value) Value { return p.ctx.T })
 	reg("(*sync.Once).Do", func(p *Path, caller *frame, a []Value) Value {
